@@ -110,7 +110,7 @@ func TestC10(t *testing.T) {
 func TestC12(t *testing.T) {
 	o := poolOpts
 	o.Bursts = false
-	o.Weights = map[string]int{"cancel": 16, "transfer": 10, "block": 22}
+	o.Weights = map[string]int{"cancel": 16, "transfer": 10, "block": 22, "xwhale": 3}
 	o.TimeoutMs = []uint64{20000, 60000, 20001, 60001}
 	(&pbt.Check{
 		ID:   "C12",
